@@ -175,6 +175,7 @@ class FakeHidOS:
         gw.fd = self._next_fd
         gw.arrived.clear()
         gw.pending.clear()
+        gw.inits_since_open = []
         gw.on_open()
         return gw.fd
 
@@ -230,6 +231,9 @@ class GwTridonic(Gateway):
     def on_write(self, data):
         cmd = data[0]
         if cmd == 0x01:                                   # INIT
+            if not hasattr(self, "inits_since_open"):
+                self.inits_since_open = []
+            self.inits_since_open.append(data[1])
             if data[1] == 0x00:
                 self.report(self.MODE_INFO, 0, [0, 4, 2, 0], 0)          # firmware 4.2  (data[3], data[4])
             elif data[1] == 0x02:
